@@ -307,6 +307,11 @@ def run(chk):
                             rv.add(strip_targs(g["q"]).split("::")[-1] if "AST_Node" not in g["q"] else strip_targs(g.get("cls") or "").split("::")[-1])
     for need in ("eval_function", "do_eval"):
         r3.ob("%s returns the value carried by Return_Value" % need, need in rv, "", "", "handlers returning rv.retval found in: %s" % sorted(rv))
+    lgc = c02.compiled_for_closure(prog)
+    r3.anchor(lgc is not None, "the compiled for-loop closure")
+    okv, whyv = c02.compiled_for_on_variable(prog, lgc)
+    r3.ob("compiled for loop: tests and steps the script variable itself and writes it nowhere else (as While/For do by evaluating the script's own condition and step)", okv, lgc.where, strip_targs(lgc["q"]),
+          whyv + " - a body that assigns the loop variable, or a closure that reads it after the loop, sees a different loop than the evaluator runs")
     r3.require(10, "obligations")
 
     # ------------------------------------------------------------------ R3.7
